@@ -11,9 +11,14 @@ use hclrs::*;
 
 use getopts::Options;
 
+// expressions are processed recursively: the work is done on a stack large enough for deeply
+// nested ones (a sum of a few thousand terms overflowed the default main-thread stack)
+const STACK_SIZE: usize = 1 << 30;
+
 fn main() {
     env_logger::init();
-    let okay = main_real().unwrap();
+    let worker = std::thread::Builder::new().stack_size(STACK_SIZE).spawn(main_real).unwrap();
+    let okay = worker.join().unwrap().unwrap();
     if okay {
         std::process::exit(0);
     } else {
